@@ -28,6 +28,10 @@ def describe_rhs(prog, fn, S, rhs):
         return ("expr", "&" + S.place(rhs["pl"]))
     if rv == "cast":
         return ("cast", describe(prog, fn, S, rhs["ops"][0]), rhs["to"])
+    if rv == "bin":
+        return ("expr", "(%s %s %s)" % (S.val(rhs["ops"][0]), rhs["op"].replace("WithOverflow", "!"), S.val(rhs["ops"][1])))
+    if rv == "un":
+        return ("expr", "(%s %s)" % (rhs["op"], S.val(rhs["ops"][0])))
     return ("expr", rv)
 
 
